@@ -15,14 +15,14 @@ Definition kw_code (k : kw) : nat :=
   | Kstruct => 0 | Ktrait => 1 | Kimpl => 2 | Kfor => 3 | Kwhere => 4 | Kforall => 5 | Kmut => 6
   | Kstatic => 7 | Kerased => 8 | Kupstream => 9 | Kfundamental => 10 | Kphantom_data => 11
   | Kauto => 12 | Kmarker => 13 | Knon_enumerable => 14 | Kcoinductive => 15 | Kobject_safe => 16
-  | Kone_zst => 17 | Kstr => 18 | Kconst => 19 | Kenum => 20
+  | Kone_zst => 17 | Kstr => 18 | Kconst => 19 | Kenum => 20 | Kint => 21 | Kfloat => 22
   | Kscalar s => 100 + scalar_code s
   end.
 
 Definition punct_code (p : punct) : nat :=
   match p with
   | PLt => 0 | PGt => 1 | PLParen => 2 | PRParen => 3 | PLBrace => 4 | PRBrace => 5 | PLBracket => 6
-  | PRBracket => 7 | PComma => 8 | PColon => 9 | PAmp => 10 | PBang => 11 | PHash => 12 | PStar => 13
+  | PRBracket => 7 | PComma => 8 | PColon => 9 | PAmp => 10 | PBang => 11 | PHash => 12 | PStar => 13 | PSemi => 14
   end.
 
 Definition tok_eqb (a b : tok) : bool :=
@@ -34,6 +34,7 @@ Definition tok_eqb (a b : tok) : bool :=
   | SELF, SELF => true
   | FIELD i, FIELD j => Nat.eqb i j
   | VARIANT i, VARIANT j => Nat.eqb i j
+  | NUM x, NUM y => N.eqb x y
   | P x, P y => Nat.eqb (punct_code x) (punct_code y)
   | _, _ => false
   end.
@@ -47,6 +48,12 @@ Fixpoint toks_eqb (a b : list tok) : bool :=
 
 (** boolean equality of lowered programs *)
 Definition ivar_eqb (a b : ivar) : bool := Nat.eqb (fst a) (fst b) && Nat.eqb (snd a) (snd b).
+Definition ikonst_eqb (a b : ikonst) : bool :=
+  match a, b with
+  | CVar x, CVar y => ivar_eqb x y
+  | CVal x, CVal y => N.eqb x y
+  | _, _ => false
+  end.
 Definition ilt_eqb (a b : ilt) : bool :=
   match a, b with
   | LVar x, LVar y => ivar_eqb x y
@@ -80,6 +87,7 @@ Fixpoint ity_eqb (a b : ity) {struct a} : bool :=
   | TRef m l t, TRef m' l' t' => Bool.eqb m m' && ilt_eqb l l' && ity_eqb t t'
   | TRaw m t, TRaw m' t' => Bool.eqb m m' && ity_eqb t t'
   | TSlice t, TSlice t' => ity_eqb t t'
+  | TArray t c, TArray t' c' => ity_eqb t t' && ikonst_eqb c c'
   | TStr, TStr | TNever, TNever => true
   | _, _ => false
   end
@@ -87,6 +95,8 @@ with igarg_eqb (a b : igarg) {struct a} : bool :=
   match a, b with
   | GTy x, GTy y => ity_eqb x y
   | GLt x, GLt y => ilt_eqb x y
+  | GCVal x, GCVal y => N.eqb x y
+  | GCVar x, GCVar y => ivar_eqb x y
   | _, _ => false
   end.
 Definition iwc_eqb (a b : iwc) : bool :=
